@@ -1445,10 +1445,11 @@ pub fn seed_model_loaded(w: &mut World, version: AutosarVersion) -> Option<usize
         ["<LONG-NAME><L-4 L=\"EN\">first</L-4></LONG-NAME><ELEMENTS><SYSTEM><SHORT-NAME>s1</SHORT-NAME></SYSTEM></ELEMENTS>", "<AR-PACKAGES><AR-PACKAGE><SHORT-NAME>sub</SHORT-NAME></AR-PACKAGE></AR-PACKAGES>", "<CATEGORY>cat</CATEGORY>"],
         // package shared
         // (the same elements in more than one file: an identifiable element inside mixed content, a SYSTEM whose first reference
-        // is repeated by the second file - merged away, which leaves a dead entry in the referrer list - followed by a second one)
+        // is repeated by the second file - merged away, which leaves a dead entry in the referrer list - followed by a second one;
+        // the inline elements of the shared mixed content differ between the files: each belongs to its own file only)
         [
-            "<DESC><L-2 L=\"EN\">see <XREF-TARGET><SHORT-NAME>anchor</SHORT-NAME></XREF-TARGET> there</L-2></DESC><ELEMENTS><ECU-INSTANCE><SHORT-NAME>e</SHORT-NAME></ECU-INSTANCE><SYSTEM><SHORT-NAME>sys</SHORT-NAME><FIBEX-ELEMENTS><FIBEX-ELEMENT-REF-CONDITIONAL><FIBEX-ELEMENT-REF DEST=\"ECU-INSTANCE\">/shared/e</FIBEX-ELEMENT-REF></FIBEX-ELEMENT-REF-CONDITIONAL></FIBEX-ELEMENTS></SYSTEM></ELEMENTS>",
-            "<DESC><L-2 L=\"EN\">see <XREF-TARGET><SHORT-NAME>anchor</SHORT-NAME></XREF-TARGET> there</L-2></DESC><ELEMENTS><ECU-INSTANCE><SHORT-NAME>e</SHORT-NAME></ECU-INSTANCE><I-SIGNAL><SHORT-NAME>i</SHORT-NAME></I-SIGNAL><SYSTEM><SHORT-NAME>sys</SHORT-NAME><FIBEX-ELEMENTS><FIBEX-ELEMENT-REF-CONDITIONAL><FIBEX-ELEMENT-REF DEST=\"ECU-INSTANCE\">/shared/e</FIBEX-ELEMENT-REF></FIBEX-ELEMENT-REF-CONDITIONAL><FIBEX-ELEMENT-REF-CONDITIONAL><FIBEX-ELEMENT-REF DEST=\"ECU-INSTANCE\">/shared/e</FIBEX-ELEMENT-REF></FIBEX-ELEMENT-REF-CONDITIONAL></FIBEX-ELEMENTS></SYSTEM></ELEMENTS>",
+            "<DESC><L-2 L=\"EN\">see <XREF-TARGET><SHORT-NAME>anchor</SHORT-NAME></XREF-TARGET> there<SUB>a</SUB></L-2></DESC><ELEMENTS><ECU-INSTANCE><SHORT-NAME>e</SHORT-NAME></ECU-INSTANCE><SYSTEM><SHORT-NAME>sys</SHORT-NAME><FIBEX-ELEMENTS><FIBEX-ELEMENT-REF-CONDITIONAL><FIBEX-ELEMENT-REF DEST=\"ECU-INSTANCE\">/shared/e</FIBEX-ELEMENT-REF></FIBEX-ELEMENT-REF-CONDITIONAL></FIBEX-ELEMENTS></SYSTEM></ELEMENTS>",
+            "<DESC><L-2 L=\"EN\">see <XREF-TARGET><SHORT-NAME>anchor</SHORT-NAME></XREF-TARGET> there<SUP>b</SUP></L-2></DESC><ELEMENTS><ECU-INSTANCE><SHORT-NAME>e</SHORT-NAME></ECU-INSTANCE><I-SIGNAL><SHORT-NAME>i</SHORT-NAME></I-SIGNAL><SYSTEM><SHORT-NAME>sys</SHORT-NAME><FIBEX-ELEMENTS><FIBEX-ELEMENT-REF-CONDITIONAL><FIBEX-ELEMENT-REF DEST=\"ECU-INSTANCE\">/shared/e</FIBEX-ELEMENT-REF></FIBEX-ELEMENT-REF-CONDITIONAL><FIBEX-ELEMENT-REF-CONDITIONAL><FIBEX-ELEMENT-REF DEST=\"ECU-INSTANCE\">/shared/e</FIBEX-ELEMENT-REF></FIBEX-ELEMENT-REF-CONDITIONAL></FIBEX-ELEMENTS></SYSTEM></ELEMENTS>",
             "",
         ],
         // package only in some files
